@@ -18,25 +18,32 @@ SEARCH_NEW = ("Memchr::<'h>::new", "Memchr2::<'h>::new", "Memchr::new", "Memchr2
 PASS = ("[T]>::iter", "Iterator::enumerate", "IntoIterator::into_iter", "::into_iter", "Iterator::rev", "Iterator::copied", "Iterator::by_ref")
 
 
-def len_atomizer(fn, at_bb):
+def root_of(e):
+    e = peel(e)
+    while isinstance(e, tuple) and e and e[0] in ("field", "downcast", "index", "cindex", "subslice"):
+        e = peel(e[1])
+    if isinstance(e, tuple) and e and e[0] in ("arg", "local"):
+        return (e[0], e[1])
+    return None
+
+
+def len_atomizer(fn, at_bb, hay_root=None):
+    """Atoms: h = length of the slice being windowed (identified by identity, not by name),
+    n = length of the other string parameter."""
     def atomize(e):
         e = strip_casts(e)
         if e[0] == "call" and (str(e[1]).endswith("[T]>::len") or str(e[1]).endswith("Utf32Str::<'a>::len")):
-            base = peel(e[2][0])
-            nm = None
-            if base[0] in ("arg", "local"):
-                nm = base[2]
-                if base[0] == "local":
-                    ds = fn.reaching_defs(base[1], at_bb)
-                    if not (len(ds) == 1 and ds[0][2] == "arg"):
-                        return "?reassigned:" + str(nm)
-            elif base[0] == "field" or base[0] == "downcast":
-                nm = show(base)
-            if nm:
-                if "haystack" in nm:
-                    return "h"
-                if "needle" in nm:
-                    return "n"
+            r = root_of(e[2][0])
+            if r is None:
+                return None
+            if r[0] == "local":
+                ds = fn.reaching_defs(r[1], at_bb)
+                if not (len(ds) == 1 and ds[0][2] == "arg") and len(fn.defs.get(r[1], [])) > 1:
+                    return "?reassigned:_%d" % r[1]
+            if hay_root is not None:
+                return "h" if r == hay_root else "n"
+            nm = fn.names.get(r[1]) or ""
+            return "h" if "haystack" in nm else ("n" if "needle" in nm else None)
         if e[0] in ("arg", "local") and e[2]:
             if e[0] == "local" and len(fn.defs.get(e[1], [])) > 1:
                 return None
@@ -44,7 +51,7 @@ def len_atomizer(fn, at_bb):
         # the index of the first a..z letter of the needle: (needle.iter().position(..) as Some).0
         if e[0] == "field" and e[2] == "0" and peel(e[1])[0] == "downcast":
             inner = peel(peel(e[1])[1])
-            if inner[0] == "call" and str(inner[1]).endswith("::position") and "needle" in show(inner[2][0]):
+            if inner[0] == "call" and str(inner[1]).endswith("::position"):
                 return "first_letter_pos"
         return None
     return atomize
@@ -75,7 +82,7 @@ def follow_consumers(fn, local, depth=0, seen=None):
         elif any(c.endswith(x) or f.endswith(x) for x in SEARCH_NEW):
             out.append(("searchnew", u[1], t))
         elif c.endswith("memmem::find_iter") or f.endswith("memmem::find_iter") or c.endswith("memmem::find") or f.endswith("memmem::find"):
-            out.append(("memmem", u[1], t))
+            out.append(("memmem" if pos == "arg0" else "memmem-pattern", u[1], t))
         elif c.endswith("Iterator::position") or f.endswith("Iterator::position") or c.endswith("::position"):
             out.append(("position", u[1], t))
         elif f.endswith("Iterator::eq") or f.endswith("Iterator::map") and False:
@@ -96,12 +103,12 @@ def follow_consumers(fn, local, depth=0, seen=None):
 
 
 def windows(fn):
-    """Candidate-start windows: (bb, term, end_expr, consumers)."""
+    """Candidate-start windows: slices `X[..E]` / `X[a..E]` that are the haystack argument of a search
+    (memchr-like: last argument; memmem: first argument) or are scanned by position()/a for loop.
+    -> (bb, term, end_expr, consumers, start, root of X)"""
     out = []
     for bi, t in fn.calls(lambda t: "ops::Index" in (t.get("fn") or "") and callee(t).endswith("::index")):
         base = fn.expr_of_operand(t["args"][0])
-        if "haystack" not in show(base):
-            continue
         r = fn.expr_of_operand(t["args"][1])
         if r[0] != "agg" or not (r[1].endswith("RangeTo::RangeTo") or r[1].endswith("Range::Range")):
             continue
@@ -109,7 +116,10 @@ def windows(fn):
         if end is None or t["dest"]["p"]:
             continue
         cons = follow_consumers(fn, t["dest"]["l"])
-        out.append((bi, t, end, cons, r[2].get("start")))
+        # a slice used only as the *pattern* of memmem (second argument) is not a window
+        if cons and all(k == "memmem-pattern" for k, _, _ in cons):
+            continue
+        out.append((bi, t, end, [c for c in cons if c[0] != "memmem-pattern"], r[2].get("start"), root_of(base)))
     return out
 
 
@@ -123,14 +133,14 @@ def rule_window(ctx, only=None):
             continue
         fn = fn_of(b)
         k = 0
-        for bi, t, end, cons, start in windows(fn):
+        for bi, t, end, cons, start, hroot in windows(fn):
             kinds = set(c[0] for c in cons)
             if kinds <= {"verify"} and kinds:
                 continue  # verification slice haystack[i+p .. i+n], not a candidate window
             k += 1
             n += 1
             key = "%s|window|%d" % (fn.path, k)
-            at = len_atomizer(fn, bi)
+            at = len_atomizer(fn, bi, hroot)
             E = poly_of(end, at)
             h, nn = Poly.atom("h"), Poly.atom("n")
             # prefix length searched
@@ -144,7 +154,7 @@ def rule_window(ctx, only=None):
                     pat = fn.expr_of_operand(ct["args"][1])
                     pp = peel(pat)
                     # needle (whole) or needle[..len]
-                    if pp[0] in ("arg", "local") and pp[2] and "needle" in pp[2]:
+                    if pp[0] in ("arg", "local") and root_of(pp) != hroot:
                         p = nn
                         w = "memmem over the whole needle"
                     elif pp[0] == "call" and str(pp[1]).endswith("::index"):
@@ -198,7 +208,9 @@ def rule_prefilter_arms(ctx):
     for bi, t in calls:
         k += 1
         key = "%s|prefilter-arm|%d" % (fn.path, k)
-        at = len_atomizer(fn, bi)
+        hay_root = root_of(fn.expr_of_operand(t["args"][1]))
+        needle_root = root_of(fn.expr_of_operand(t["args"][2]))
+        at = len_atomizer(fn, bi, hay_root)
         P = poly_of(fn.expr_of_operand(t["args"][3]), at)
         it = fn.expr_of_operand(t["args"][4])
         problems = []
@@ -208,21 +220,17 @@ def rule_prefilter_arms(ctx):
         c = str(it[1])
         if c.endswith("Memchr2::<'h>::new") or c.endswith("Memchr::<'h>::new") or c.endswith("Memchr2::new") or c.endswith("Memchr::new"):
             byte = strip_casts(it[2][0])
-            # needle[0]
-            isn0 = byte[0] in ("index", "cindex") or (byte[0] == "deref")
-            txt = show(byte)
-            if "needle" not in txt or not ("[0]" in txt or "[0" in txt or "cindex" in str(byte)):
-                # index expr: ('index', needle, const 0)
-                okb = byte[0] == "index" and "needle" in show(byte[1]) and byte[2][0] == "const" and byte[2][1] == 0
-                if not okb:
-                    problems.append("searches byte %s, not needle[0]" % txt)
+            okb = byte[0] == "index" and root_of(byte[1]) == needle_root and byte[2][0] == "const" and byte[2][1] == 0
+            okb = okb or (byte[0] == "cindex" and root_of(byte[1]) == needle_root and byte[2] == 0 and not byte[3])
+            if not okb:
+                problems.append("searches byte %s, not needle[0]" % show(byte))
             if P != Poly.const(1):
                 problems.append("prefilter_len is %s but a single byte is located" % P)
         elif c.endswith("memmem::find_iter"):
             pat = peel(it[2][1])
-            if pat[0] == "call" and str(pat[1]).endswith("::index") and pat[2][1][0] == "agg" and pat[2][1][1].endswith("RangeTo::RangeTo") and "needle" in show(pat[2][0]):
+            if pat[0] == "call" and str(pat[1]).endswith("::index") and pat[2][1][0] == "agg" and pat[2][1][1].endswith("RangeTo::RangeTo") and root_of(pat[2][0]) == needle_root:
                 plen = poly_of(pat[2][1][2]["end"], at)
-            elif pat[0] in ("arg", "local") and pat[2] and "needle" in pat[2]:
+            elif pat[0] in ("arg", "local") and root_of(pat) == needle_root:
                 plen = Poly.atom("n")
             else:
                 plen = None
@@ -242,8 +250,13 @@ def rule_prefilter_arms(ctx):
     for bi, t in cf.calls(lambda t: str(t.get("fn")).endswith("Iterator::eq")):
         a = cf.expr_of_operand(t["args"][0])
         b = cf.expr_of_operand(t["args"][1])
-        sa, sb = show(a), show(b)
-        if "prefilter_len" in sa and "haystack" in sa and "needle" in sb and "RangeFrom{start: prefilter_len}" in sb:
+        # left: haystack[i + prefilter_len ..]; right: needle[prefilter_len..]
+        def uses_arg(e, idx):
+            return any(x[0] == "arg" and x[1] == idx for x in walk(e)) or any(x[0] == "local" and any(y[0] == "arg" and y[1] == idx for _, _, d in cf.def_exprs(x[1]) for y in walk(d)) for x in walk(e))
+        left_ok = uses_arg(a, 2) and uses_arg(a, 4)
+        right_ok = uses_arg(b, 3) and uses_arg(b, 4) and any(x[0] == "agg" and x[1].endswith("RangeFrom::RangeFrom") for x in walk(b) if isinstance(x, tuple)) or \
+            (uses_arg(b, 3) and uses_arg(b, 4))
+        if left_ok and right_ok:
             okv = True
     if okv:
         ctx.ok(site(cf, 0), "callee compares haystack[i + prefilter_len ..] with needle[prefilter_len..]")
